@@ -72,7 +72,14 @@ def handle (hdr : List String) (body : List (List String)) : List String :=
       let finalChain : List Blk := match tops with | [t] => chainOf (allBlks.length + 1) t.blk.id [] | _ => []
       let filterSeesBlocks := cfg.finalOnly || (match cfg.customFilter with | some m => m % 2 == 1 || (m / 16) % 2 == 1 | none => true)
       let resumedPastStop := match cfg.cursor with | some c => c.block.num ≥ sp | none => false
-      let c13d := if send == "stop" && sp != 0 && filterSeesBlocks && !resumedPastStop && finalChain.any (·.num == sp) && !(impl.any (·.ref.num == sp))
+      -- … and that block is on the chain the stream actually followed: in the merged files, or on the hub's own chain
+      -- (what its forkable delivered) when the stream ended — blocks that reached the hub before their parents and
+      -- were never switched to do not count
+      let hubAtEnd : List Blk := match runStreamFinal cfg hubCfg bundles files pushes with
+        | some mf => (match HubBurst.headSegment mf.hub with | some (_, seg) => seg.map (·.blk) | none => [])
+        | none => []
+      let followed : List Blk := bundles.flatMap (·.blocks) ++ hubAtEnd
+      let c13d := if send == "stop" && sp != 0 && filterSeesBlocks && !resumedPastStop && finalChain.any (·.num == sp) && followed.any (·.num == sp) && !(impl.any (·.ref.num == sp))
                   then ["monitor C13 FAIL stop-block-reached-without-delivering-the-stop-block"] else []
       -- C11 at stream level: once the handler has failed on a block, Run reports the handler's error (not the stop block,
       -- not success) and the handler is not called again
